@@ -25,3 +25,14 @@ claim('C16', 'model_checking',
       'only decides the node-id obligations.',
       'decision-tree state exploration of the real allocator (fixpoint) + SMT validity (LIA) for NodeIDAllocator',
       'DESIGN.md 3/C16')
+
+claim('C12', 'other',
+      'Each law of the property (affine round trips, continuity of tempo/etempo/beats changes at the change instant, '
+      'rate == tempo, next_time_on_grid earliest congruent beat >= reference counted from the last meter change, '
+      'play(quant) scheduling there, bar/beat inverses, next_bar) is one z3 validity query over the terms computed by '
+      'the real TempoClock methods from an ARBITRARY invariant-satisfying state (all fields, logical and physical time '
+      'symbolic reals); the setters are proved to re-establish the invariant, so the laws hold after histories of any '
+      'length. quant and beats_per_bar in the floor-based laws range over a stated grid.',
+      _TB + '; main.elapsed_time and the current thread are stubs returning arbitrary reals (physical >= logical).',
+      'symbolic execution of the real TempoClock methods (z3 Real terms) + SMT validity per law (NRA, ToInt witnesses)',
+      'DESIGN.md 3/C12')
